@@ -47,6 +47,10 @@ pub enum Corr {
     KeyFile(u16),
     /// overwrite one byte of a snapshot header outside its checksum field (version, timestamps, ids, counts)
     SnapHeader(u16, u8, u8),
+    /// rewrite one field of a snapshot header, keeping the header well-formed (decoded, changed, re-encoded with a
+    /// matching length prefix; data section and its checksum untouched): (file pick, field 0..=4 = version,
+    /// created_at, last_transaction_id, entry_count, total_size, value pick)
+    SnapHeaderField(u16, u8, u8),
 }
 #[derive(Debug, Clone, Serialize, Deserialize)]
 pub struct Case {
@@ -524,6 +528,63 @@ fn apply_script(dir: &Path, other_dir: &Path, script: &[Corr], final_state: &Sta
                     }
                 }
             }
+            Corr::SnapHeaderField(fp, field, pickv) => {
+                let snaps: Vec<PathBuf> = files.iter().filter(|p| p.extension().map(|x| x == "snap").unwrap_or(false)).cloned().collect();
+                if snaps.is_empty() {
+                    continue;
+                }
+                let f = snaps[idx(*fp, snaps.len())].clone();
+                let b = std::fs::read(&f).unwrap_or_default();
+                if b.len() > 4 {
+                    let n = u32::from_le_bytes(b[..4].try_into().unwrap()) as usize;
+                    if 4 + n <= b.len() {
+                        if let Ok(mut h) = postcard::from_bytes::<SnapshotHeader>(&b[4..4 + n]) {
+                            let pick_u64 = |old: u64| -> u64 {
+                                match pickv % 9 {
+                                    0 => 0,
+                                    1 => old.wrapping_add(1),
+                                    2 => old.wrapping_sub(1),
+                                    3 => 1 << 20,
+                                    4 => 1 << 30,
+                                    5 => 1 << 32,
+                                    6 => 1 << 40,
+                                    7 => u64::MAX / 2,
+                                    _ => u64::MAX,
+                                }
+                            };
+                            let name = match field % 5 {
+                                0 => {
+                                    h.version = pick_u64(h.version as u64) as u8;
+                                    "version"
+                                }
+                                1 => {
+                                    h.created_at = pick_u64(h.created_at);
+                                    "created_at"
+                                }
+                                2 => {
+                                    h.last_transaction_id = pick_u64(h.last_transaction_id);
+                                    "last_transaction_id"
+                                }
+                                3 => {
+                                    h.entry_count = pick_u64(h.entry_count);
+                                    "entry_count"
+                                }
+                                _ => {
+                                    h.total_size = pick_u64(h.total_size);
+                                    "total_size"
+                                }
+                            };
+                            if let Ok(enc) = postcard::to_stdvec(&h) {
+                                let mut nb = (enc.len() as u32).to_le_bytes().to_vec();
+                                nb.extend_from_slice(&enc);
+                                nb.extend_from_slice(&b[4 + n..]);
+                                let _ = std::fs::write(&f, &nb);
+                                desc.push(format!("snapshot header field {name} of {} rewritten (value pick {})", f.file_name().unwrap().to_string_lossy(), pickv % 9));
+                            }
+                        }
+                    }
+                }
+            }
             Corr::KeyFile(bit) => {
                 let f = dir.join("state.key");
                 if let Ok(mut b) = std::fs::read(&f) {
@@ -635,6 +696,7 @@ fn run_case(c: &Case) -> Verdict {
                 Corr::DeleteFile(..) => "delete_file",
                 Corr::KeyFile(..) => "key_file",
                 Corr::SnapHeader(..) => "snapshot_header",
+                Corr::SnapHeaderField(..) => "snapshot_header_field",
             });
         }
         if data_files(&a).iter().any(|p| p.extension().map(|x| x == "snap").unwrap_or(false)) {
@@ -676,6 +738,7 @@ fn corr() -> impl Strategy<Value = Corr> {
         1 => any::<u16>().prop_map(Corr::DeleteFile),
         1 => any::<u16>().prop_map(Corr::KeyFile),
         3 => (any::<u16>(), any::<u8>(), prop_oneof![Just(0x7fu8), Just(0xffu8), Just(0u8), any::<u8>()]).prop_map(|(f, o, b)| Corr::SnapHeader(f, o, b)),
+        3 => (any::<u16>(), 0u8..5, 0u8..9).prop_map(|(f, fl, p)| Corr::SnapHeaderField(f, fl, p)),
     ]
 }
 
@@ -699,7 +762,7 @@ fn build_dec(u: &mut Unstructured) -> arbitrary::Result<BuildOp> {
     })
 }
 fn corr_dec(u: &mut Unstructured) -> arbitrary::Result<Corr> {
-    Ok(match u.int_in_range(0u8..=12)? {
+    Ok(match u.int_in_range(0u8..=13)? {
         0 => Corr::FlipBits(u.arbitrary()?, u.arbitrary()?, u.int_in_range(1u8..=8)?, u.arbitrary()?),
         1 => Corr::Overwrite(u.arbitrary()?, u.arbitrary()?, u.int_in_range(1u8..=16)?, u.arbitrary()?),
         2 => {
@@ -720,7 +783,8 @@ fn corr_dec(u: &mut Unstructured) -> arbitrary::Result<Corr> {
         9 => Corr::Resplit(u.arbitrary()?, u.arbitrary()?),
         10 => Corr::DeleteFile(u.arbitrary()?),
         11 => Corr::KeyFile(u.arbitrary()?),
-        _ => Corr::SnapHeader(u.arbitrary()?, u.arbitrary()?, u.arbitrary()?),
+        12 => Corr::SnapHeader(u.arbitrary()?, u.arbitrary()?, u.arbitrary()?),
+        _ => Corr::SnapHeaderField(u.arbitrary()?, u.int_in_range(0u8..=4)?, u.int_in_range(0u8..=8)?),
     })
 }
 pub fn decode(data: &[u8]) -> Option<Case> {
@@ -752,6 +816,8 @@ pub fn check(c: &Case) -> Verdict {
 }
 
 pub fn run(run: &Run) {
+    // a single allocation request that would abort the process is decided for the case in flight (engine::absurd_fatal)
+    TRACK_INFLIGHT.store(true, std::sync::atomic::Ordering::Relaxed);
     run.assume("damage that leaves only complete, genuine records (duplicating or moving a whole record, cutting a log exactly on a record boundary, deleting a whole file) need not be reported - it is indistinguishable from a shorter or reordered genuine log; the recovered values must still be genuine and agree with the reference replay");
     run.assume("reference replay: a framed record counts iff it is field-for-field identical (incl. its tag) to a record this store wrote; batches need their commit marker; the newest snapshot whose stored checksum matches its data is the base");
     run.set_rule("corrupt", "cleanly closed directory from a generated history (rotation threshold 3..11, snapshots in part of the cases) + a second store for transplants, then 1..3 corruptions (bit flips, overwrite, truncate, append, duplicate/move/transplant a record, length-prefix rewrite 0/len±1/0x7fffffff/0xffffffff, key/value re-split keeping the tag, file deletion, key-file damage); non-trivial = the corruption hits a record that decides the final value of a key, or the recovered state differs from the undamaged final state");
